@@ -100,12 +100,14 @@ Section NonceDecProofs.
   Variable open_ : bytes -> bytes -> bytes -> bytes -> option bytes.
   Variables (ivlen taglen : nat).
   Variable open_max : option N.
+  Variable ct_max : option N.
 
   Notation open_o := (open_o open_ taglen open_max).
-  Notation dec1 := (na_dec_lenfirst open_ ivlen taglen open_max).
-  Notation dec2 := (na_dec_prefixfirst open_ ivlen taglen open_max).
-  Notation dec3 := (na_dec_lenprefix open_ ivlen taglen open_max).
-  Notation dec := (na_dec_canon open_ ivlen taglen open_max).
+  Notation open_t := (open_t open_ taglen open_max ct_max).
+  Notation dec1 := (na_dec_lenfirst open_ ivlen taglen open_max ct_max).
+  Notation dec2 := (na_dec_prefixfirst open_ ivlen taglen open_max ct_max).
+  Notation dec3 := (na_dec_lenprefix open_ ivlen taglen open_max ct_max).
+  Notation dec := (na_dec_canon open_ ivlen taglen open_max ct_max).
 
   (* -- the three Go bodies are the same function -- *)
   Lemma dec_lenfirst_canon prefix key c ad : dec1 prefix key c ad = dec prefix key c ad.
@@ -185,9 +187,10 @@ Section NonceDecProofs.
     dec prefix key c ad = Panic <->
     exists m, open_max = Some m /\ (length prefix + ivlen + taglen <= length c)%nat /\
               firstn (length prefix) c = prefix /\
-              m < N.of_nat (length c - length prefix - ivlen).
+              m < N.of_nat (length c - length prefix - ivlen) /\
+              (forall m', ct_max = Some m' -> N.of_nat (length c - length prefix - ivlen) <= m').
   Proof.
-    unfold na_dec_canon, AeadFrame.open_o.
+    unfold na_dec_canon, AeadFrame.open_t, AeadFrame.open_o.
     destruct (Nat.leb_spec (length prefix + ivlen + taglen) (length c)) as [Hl|Hl]; simpl.
     2:{ split; [discriminate|]. intros [m [_ [H _]]]. lia. }
     destruct (beq (firstn (length prefix) c) prefix) eqn:Eb.
@@ -197,31 +200,71 @@ Section NonceDecProofs.
       [rewrite skipn_length in Hc; lia|].
     unfold lenN. rewrite skipn_length.
     replace (length c - (length prefix + ivlen))%nat with (length c - length prefix - ivlen)%nat by lia.
-    destruct open_max as [m|].
-    - destruct (N.ltb_spec m (N.of_nat (length c - length prefix - ivlen))) as [Hm|Hm].
-      + split; [|reflexivity]. intros _. exists m. auto.
-      + split.
-        * destruct (open_ _ _ _ _); discriminate.
-        * intros [m' [E [_ [_ H]]]]. inversion E; subst. lia.
-    - split; [destruct (open_ _ _ _ _); discriminate|]. intros [m [E _]]. discriminate.
+    set (L := N.of_nat (length c - length prefix - ivlen)).
+    assert (Hcore : (match open_max with
+                     | Some m => if m <? L then Panic else of_open (open_ key (firstn ivlen (skipn (length prefix) c)) ad (skipn (length prefix + ivlen) c))
+                     | None => of_open (open_ key (firstn ivlen (skipn (length prefix) c)) ad (skipn (length prefix + ivlen) c))
+                     end = Panic) <-> exists m, open_max = Some m /\ m < L).
+    { destruct open_max as [m|].
+      - destruct (N.ltb_spec m L) as [Hm|Hm].
+        + split; [|reflexivity]. intros _. exists m. auto.
+        + split; [destruct (open_ _ _ _ _); discriminate|]. intros [m' [E H]]. inversion E; subst. lia.
+      - split; [destruct (open_ _ _ _ _); discriminate|]. intros [m [E _]]. discriminate. }
+    destruct ct_max as [mc|].
+    - destruct (N.ltb_spec mc L) as [Hm|Hm].
+      + split; [discriminate|]. intros [m [_ [_ [_ [_ H]]]]]. specialize (H mc eq_refl). lia.
+      + rewrite Hcore. split.
+        * intros [m [E H]]. exists m. repeat split; auto. intros m' E'. inversion E'; subst. exact Hm.
+        * intros [m [E [_ [_ [H _]]]]]. exists m. auto.
+    - rewrite Hcore. split.
+      + intros [m [E H]]. exists m. repeat split; auto. intros m' E'. discriminate.
+      + intros [m [E [_ [_ [H _]]]]]. exists m. auto.
   Qed.
 
+  (* Decrypt cannot panic when the standard library's Open has no size panic, when the
+     ciphertext is below it, or when Tink's own size check is at least as strict *)
   Lemma na_dec_no_panic prefix key c ad :
-    (forall m, open_max = Some m -> lenN c <= m) -> dec prefix key c ad <> Panic.
+    (forall m, open_max = Some m -> lenN c <= m \/ exists m', ct_max = Some m' /\ m' <= m) ->
+    dec prefix key c ad <> Panic.
   Proof.
-    intros H Hp. apply na_dec_panic_iff in Hp. destruct Hp as [m [E [_ [_ Hm]]]].
-    specialize (H m E). unfold lenN in H. lia.
+    intros H Hp. apply na_dec_panic_iff in Hp. destruct Hp as [m [E [_ [_ [Hm Hc]]]]].
+    destruct (H m E) as [H1|[m' [E' H1]]]; [unfold lenN in H1; lia|].
+    specialize (Hc m' E'). lia.
   Qed.
 
-  Lemma na_dec_panics_spec prefix key c ad :
-    dec prefix key c ad = Panic <->
-    na_dec_panics open_max (length prefix) ivlen taglen (lenN c) (beq (firstn (length prefix) c) prefix) = true.
+  (* length-only predictions (ciphertexts too long to materialise) *)
+  Lemma na_dec_len_only_err prefix key c ad :
+    na_dec_len_only open_max ct_max (length prefix) ivlen taglen (lenN c)
+      (beq (firstn (length prefix) c) prefix) = Some Err -> dec prefix key c ad = Err.
   Proof.
-    rewrite na_dec_panic_iff. unfold na_dec_panics, lenN. destruct open_max as [m|].
-    - rewrite !andb_true_iff, beq_eq, N.leb_le, N.ltb_lt. split.
-      + intros [m' [E [H1 [H2 H3]]]]. inversion E; subst m'. repeat split; auto; lia.
-      + intros [[H2 H1] H3]. exists m. repeat split; auto; lia.
-    - split; [intros [m [E _]]; discriminate | discriminate].
+    unfold na_dec_len_only, na_dec_canon, AeadFrame.open_t, lenN.
+    destruct (beq (firstn (length prefix) c) prefix); cbn [negb orb];
+      [|rewrite andb_false_r; reflexivity].
+    destruct (N.ltb_spec (N.of_nat (length c)) (N.of_nat (length prefix + ivlen + taglen))) as [Hs|Hs].
+    - destruct (Nat.leb_spec (length prefix + ivlen + taglen) (length c)); [lia|]. reflexivity.
+    - destruct (Nat.leb_spec (length prefix + ivlen + taglen) (length c)); [|lia]. cbn [andb].
+      rewrite skipn_length.
+      replace (N.of_nat (length c - (length prefix + ivlen))) with (N.of_nat (length c) - N.of_nat (length prefix) - N.of_nat ivlen) by lia.
+      destruct ct_max as [mc|].
+      + destruct (mc <? _); [reflexivity|]. destruct open_max as [m|]; [destruct (m <? _)|]; discriminate.
+      + destruct open_max as [m|]; [destruct (m <? _)|]; discriminate.
+  Qed.
+
+  Lemma na_dec_len_only_panic prefix key c ad :
+    na_dec_len_only open_max ct_max (length prefix) ivlen taglen (lenN c)
+      (beq (firstn (length prefix) c) prefix) = Some Panic -> dec prefix key c ad = Panic.
+  Proof.
+    unfold na_dec_len_only, na_dec_canon, AeadFrame.open_t, AeadFrame.open_o, lenN.
+    destruct (beq (firstn (length prefix) c) prefix); cbn [negb orb]; [|discriminate].
+    destruct (N.ltb_spec (N.of_nat (length c)) (N.of_nat (length prefix + ivlen + taglen))) as [Hs|Hs]; [discriminate|].
+    destruct (Nat.leb_spec (length prefix + ivlen + taglen) (length c)); [|lia]. cbn [andb].
+    destruct (Nat.ltb_spec (length (skipn (length prefix + ivlen) c)) taglen) as [Hc|Hc];
+      [rewrite skipn_length in Hc; lia|].
+    rewrite skipn_length.
+    replace (N.of_nat (length c - (length prefix + ivlen))) with (N.of_nat (length c) - N.of_nat (length prefix) - N.of_nat ivlen) by lia.
+    destruct ct_max as [mc|].
+    - destruct (mc <? _); [discriminate|]. destruct open_max as [m|]; [destruct (m <? _)|]; try discriminate. reflexivity.
+    - destruct open_max as [m|]; [destruct (m <? _)|]; try discriminate. reflexivity.
   Qed.
 
 End NonceDecProofs.
@@ -233,14 +276,16 @@ Section NonceAeadProofs.
   Variables (ivlen taglen : nat).
   Variable seal_max : N.
   Variable open_max : option N.
+  Variable ct_max : option N.
 
   Notation seal_o := (seal_o seal seal_max).
   Notation open_o := (open_o open_ taglen open_max).
+  Notation open_t := (open_t open_ taglen open_max ct_max).
   Notation enc := (na_enc seal seal_max).
-  Notation dec1 := (na_dec_lenfirst open_ ivlen taglen open_max).
-  Notation dec2 := (na_dec_prefixfirst open_ ivlen taglen open_max).
-  Notation dec3 := (na_dec_lenprefix open_ ivlen taglen open_max).
-  Notation dec := (na_dec_canon open_ ivlen taglen open_max).
+  Notation dec1 := (na_dec_lenfirst open_ ivlen taglen open_max ct_max).
+  Notation dec2 := (na_dec_prefixfirst open_ ivlen taglen open_max ct_max).
+  Notation dec3 := (na_dec_lenprefix open_ ivlen taglen open_max ct_max).
+  Notation dec := (na_dec_canon open_ ivlen taglen open_max ct_max).
 
   (* -- laws of the standard AEAD (hypotheses of the theorems) -- *)
   Definition seal_len_law := forall k n a p, length (seal k n a p) = (length p + taglen)%nat.
@@ -250,6 +295,8 @@ Section NonceAeadProofs.
     open_ k n a c = Some p -> c = seal k n a p /\ lenN p <= seal_max.
   (* stdlib Open does not panic on anything Seal can produce *)
   Definition open_max_law := forall m, open_max = Some m -> m = seal_max + N.of_nat taglen.
+  (* Tink's size check before Open lets every output of Seal through *)
+  Definition ct_max_law := forall m, ct_max = Some m -> seal_max + N.of_nat taglen <= m.
 
   Lemma open_o_seal k n a p : seal_len_law -> open_seal_law -> open_max_law ->
     lenN p <= seal_max -> open_o k n a (seal k n a p) = Ok p.
@@ -272,20 +319,36 @@ Section NonceAeadProofs.
       destruct (open_ k n a c) eqn:E; simpl; intros H; inversion H; subst; apply HU; exact E.
   Qed.
 
+  Lemma open_t_seal k n a p : seal_len_law -> open_seal_law -> open_max_law -> ct_max_law ->
+    lenN p <= seal_max -> open_t k n a (seal k n a p) = Ok p.
+  Proof.
+    intros HL HO HM HC Hp. unfold AeadFrame.open_t.
+    destruct ct_max as [m|] eqn:Ec; [|apply open_o_seal; auto].
+    pose proof (HC m Ec) as Hm. unfold lenN in *. rewrite HL.
+    destruct (N.ltb_spec m (N.of_nat (length p + taglen))); [lia|]. apply open_o_seal; auto.
+  Qed.
+
+  Lemma open_t_ok k n a c p : open_only_seal_law ->
+    open_t k n a c = Ok p -> c = seal k n a p /\ lenN p <= seal_max.
+  Proof.
+    intros HU. unfold AeadFrame.open_t.
+    destruct ct_max as [m|]; [destruct (m <? lenN c); [discriminate|]|]; apply open_o_ok; exact HU.
+  Qed.
+
   (* -- C01: round trip -- *)
   Lemma na_round_trip tink_max prefix key iv p ad c :
-    seal_len_law -> open_seal_law -> open_max_law ->
+    seal_len_law -> open_seal_law -> open_max_law -> ct_max_law ->
     length iv = ivlen ->
     enc tink_max prefix key iv p ad = Ok c -> dec prefix key c ad = Ok p.
   Proof.
-    intros HL HO HM Hiv. unfold na_enc, AeadFrame.seal_o.
+    intros HL HO HM HC Hiv. unfold na_enc, AeadFrame.seal_o.
     destruct (tink_max <? lenN p); [discriminate|].
     destruct (N.ltb_spec seal_max (lenN p)); [discriminate|]. simpl. intros Hc; inversion Hc; subst c; clear Hc.
     unfold na_dec_canon. rewrite !app_length, HL, firstn_app_exact, beq_refl.
     destruct (Nat.leb_spec (length prefix + ivlen + taglen) (length prefix + (length iv + (length p + taglen)))); [|lia].
     simpl. rewrite skipn_app_exact. rewrite firstn_app_len by lia.
     rewrite app_assoc, skipn_app_len by (rewrite app_length; lia).
-    apply open_o_seal; auto.
+    apply open_t_seal; auto.
   Qed.
 
   Lemma na_enc_total tink_max prefix key iv p ad :
@@ -298,16 +361,16 @@ Section NonceAeadProofs.
 
   (* -- C02: exact acceptance set -- *)
   Lemma na_accept_iff tink_max prefix key c ad p :
-    seal_len_law -> open_seal_law -> open_only_seal_law -> open_max_law ->
+    seal_len_law -> open_seal_law -> open_only_seal_law -> open_max_law -> ct_max_law ->
     seal_max <= tink_max ->
     (dec prefix key c ad = Ok p <->
      exists iv, length iv = ivlen /\ enc tink_max prefix key iv p ad = Ok c).
   Proof.
-    intros HL HO HU HM Hmax. split.
+    intros HL HO HU HM HC Hmax. split.
     - unfold na_dec_canon.
       destruct (Nat.leb_spec (length prefix + ivlen + taglen) (length c)) as [Hl|]; [|discriminate].
       destruct (beq (firstn (length prefix) c) prefix) eqn:Eb; [|discriminate]. simpl.
-      apply beq_eq in Eb. intros H. apply open_o_ok in H; auto. destruct H as [Hc Hp].
+      apply beq_eq in Eb. intros H. apply open_t_ok in H; auto. destruct H as [Hc Hp].
       exists (firstn ivlen (skipn (length prefix) c)). split.
       + rewrite firstn_length, skipn_length. lia.
       + rewrite na_enc_total by lia. f_equal. rewrite <- Hc. rewrite <- Eb at 1.
